@@ -32,7 +32,8 @@ RULE = ("sequences of 0-7 header lines over the pragma grammar: start symbol, ke
         "same pragmas parsed afresh); LineReader cases (text in io.StringIO, MafHeader.from_line_reader, then line_number, "
         "peek_line and up to four read_line calls; empty lines inside and around the pragma block); argument cases "
         "(from_defaults and from_reader with every truthy/falsy combination of version, annotation, sort order by name "
-        "or instance with and without own contigs, contigs); report cases (a whole defective file read in Silent mode: "
+        "or instance with and without own contigs, contigs, fasta_index= a scratch .fai; scheme_header_lines of the "
+        "built-in schemes against from_defaults); LineReader iteration by next()/.next()/for and close(); report cases (a whole defective file read in Silent mode: "
         "reader.header().validation_errors after opening, after reading, and of a from_reader-derived header must be the "
         "header's own). "
         "non-trivial: at least two records kept, or a diagnostic reported, or a mutation applied; distinct by case hash")
@@ -213,8 +214,11 @@ def _args_case(rng):
         so = ["name", rng.choice(R.SORT_NAMES + ["", "bogus"])]
     else:
         so = ["inst", rng.choice(R.SORT_NAMES), rng.choice([[], [], ["s1", "s2"]])]
+    fai = None
+    if rng.random() < 0.3:
+        fai = rng.sample(["chr1", "chr2", "chrX", "1", "MT"], rng.randint(1, 4))      # a scratch .fai (never empty)
     return {"kind": "args", "stream": "args", "src": src, "version": version, "annotation": annotation,
-            "so": so, "contigs": contigs}
+            "so": so, "contigs": contigs, "fai": fai}
 
 
 def corpus():
@@ -224,6 +228,10 @@ def corpus():
          "reads": 3, "last_eol": True},
         # the header's own report while the reader records column-line and data-line errors
         {"kind": "report", "stream": "corpus", "lines": ["#k", "#version gdc-1.0.0", "a\tb", "1"], "override": None},
+        {"kind": "args", "stream": "corpus", "src": None, "version": "gdc-1.0.0", "annotation": "gdc-1.0.0-public",
+         "so": None, "contigs": None, "fai": None},
+        {"kind": "args", "stream": "corpus", "src": ["#version v1"], "version": None, "annotation": None,
+         "so": ["inst", "Coordinate", []], "contigs": ["ignored"], "fai": ["chr1", "chr2"]},
         {"kind": "args", "stream": "corpus", "src": None, "version": "gdc-1.0.0", "annotation": "", "so":
             ["inst", "Coordinate", ["s1", "s2"]], "contigs": None},
         {"kind": "args", "stream": "corpus", "src": ["#version v1", "#contigs a,b", "#sort.order Coordinate"],
@@ -264,6 +272,9 @@ def generate(rng, n):
         out.append(_lr_case(rng))
     for _ in range(max(30, n // 10) * args_share):
         out.append(_args_case(rng))
+    for ann in R.ANNOTS_OK + ["gdc-1.0.0"]:        # scheme_header_lines against from_defaults for built-in schemes
+        out.append({"kind": "args", "stream": "args", "src": None, "version": "gdc-1.0.0", "annotation": ann,
+                    "so": None, "contigs": None, "fai": None})
     for _ in range(max(30, n // 12) * (3 if R.focused("reader.py") else 1)):
         out.append(_hdr_report_case(rng))
     n = max(n, len(out) + n // 3)        # the pragma-grammar streams always keep at least a third of the budget
@@ -304,7 +315,8 @@ def to_model(case):
     if case["kind"] == "linereader":
         return R.wire_line_reader(case["lines"], case["mode"], case["reads"], case["last_eol"])
     if case["kind"] == "args":
-        return R.wire_derive_args(case["src"], case["version"], case["annotation"], case["so"], case["contigs"])
+        return R.wire_derive_args(case["src"], case["version"], case["annotation"], case["so"], case["contigs"],
+                                  case.get("fai"))
     return R.wire_derive(case["lines"], case["mc"], case["ms"])
 
 
@@ -318,7 +330,8 @@ def run_impl(case):
     if case["kind"] == "linereader":
         return R.impl_line_reader(case["lines"], case["mode"], case["reads"], case["last_eol"])
     if case["kind"] == "args":
-        return R.impl_derive_args(case["src"], case["version"], case["annotation"], case["so"], case["contigs"])
+        return R.impl_derive_args(case["src"], case["version"], case["annotation"], case["so"], case["contigs"],
+                                  case.get("fai"))
     return R.impl_derive(case["lines"], case["mc"], case["ms"])
 
 
@@ -400,6 +413,26 @@ def _lr_oracle(case, obs):
     behind = lines[k] if k < len(lines) else ""
     if obs["peek"] != behind:
         out.append("linereader-peek %r expected %r" % (obs["peek"], behind))
+    # read_line steps over non-empty lines only; iterating (next(), .next(), for) yields the lines up to the next
+    # empty line or the end; close() closes the handle
+    pos = k
+    for got in obs["reads"]:
+        want = lines[pos] if pos < len(lines) else ""
+        if want != "":
+            pos += 1
+        if got != [want, pos]:
+            out.append("linereader-read_line %r expected %r" % (got, [want, pos]))
+            return out
+    expect = []
+    while pos < len(lines) and lines[pos] != "":
+        expect.append(lines[pos])
+        pos += 1
+    if obs["_iter"] != expect:
+        out.append("linereader-iteration %r expected %r" % (obs["_iter"][:5], expect[:5]))
+    elif obs["_lineno_after_iter"] != pos:
+        out.append("linereader-line-number-after-iteration %r expected %d" % (obs["_lineno_after_iter"], pos))
+    if not obs["_closed"]:
+        out.append("linereader-close-left-the-handle-open")
     return out
 
 
@@ -409,6 +442,11 @@ def _args_oracle(case, obs):
     out = []
     if obs.get("_src_before") != obs.get("_src_after"):
         out.append("from_reader-changed-the-readers-own-header")
+    case = dict(case)
+    if case.get("fai") is not None:
+        case["contigs"] = list(case["fai"])      # fasta_index=path stands for contigs=[first column of each line]
+    if "_scheme_lines" in obs and obs["res"][0] == "ok" and obs["res"][1]["print"] != obs["_scheme_lines"]:
+        out.append("scheme_header_lines %r but-from_defaults-prints %r" % (obs["_scheme_lines"], obs["res"][1]["print"]))
     so = case["so"]
     so_name = None
     own = []
